@@ -12,7 +12,7 @@ CFG = {
                           "RpmVerif.C06.entryOf_path_cpio", "RpmVerif.C06.readback_file_entries_build",
                           "RpmVerif.C06.readback_file_entries_reparsed",
                           "RpmVerif.C06.dep_ctor_spec", "RpmVerif.C06.dep_ctor_defined", "RpmVerif.C06.builder_ctors_in_table",
-                          "RpmVerif.C06.dep_ctor_flags_readback",
+                          "RpmVerif.C06.dep_ctor_flags_readback", "RpmVerif.C06.dep_ctor_table_standard",
                           "RpmVerif.Pipeline.build_file_entries", "RpmVerif.Pipeline.build_file_entries_reparsed",
                           "RpmVerif.Pipeline.built_history_file_entries", "RpmVerif.Pipeline.built_package_sound"],
     "trivial_branches": ["build-rejected", "ctor-names"],
@@ -46,7 +46,7 @@ CFG = {
                   "re-parse history (Pipeline.built_history_file_entries); hypotheses: every file's directory is registered and every digest text is "
                   "empty or 64 characters (both guaranteed by add_data). A dependency made by any public Dependency constructor (table regenerated from the "
                   "source) reads back, under each of the eight kinds, with the constructor's wrapped name, the version and exactly the table's flags "
-                  "(dep_ctor_flags_readback; the constructors the builder calls itself are rows of that table: builder_ctors_in_table). The model predicts the emitted "
+                  "(dep_ctor_flags_readback; the constructors the builder calls itself are rows of that table: builder_ctors_in_table; the table's rows are rpm's RPMSENSE meanings of the constructor names: dep_ctor_table_standard). The model predicts the emitted "
                   "lead, signature header and main header byte for byte on every generated configuration.",
     "level_note": "Trusted: Lean kernel; model fidelity as exercised (byte-exact header prediction per case); compressors / SHA-256 crates; "
                   "add_data's path handling is C17's model. get_file_entries' composition is a theorem (readback_file_entries) and is also exercised by the correspondence.",
